@@ -219,6 +219,25 @@ where
                 "Transaction is already active".to_string(),
             )));
         }
+
+        // Another publish may have completed between our read of the epoch record above and the start of
+        // this transaction. The update set was prepared against `current_epoch`: applying it on top of a
+        // newer epoch would hand out an epoch number (and overwrite node states) that have already been
+        // published, so the call fails without effect instead.
+        match Directory::<TC, S, V>::get_azks_from_storage(&self.storage, true).await {
+            Ok(latest_azks) if latest_azks.get_latest_epoch() == current_epoch => {}
+            Ok(latest_azks) => {
+                let _ = self.storage.rollback_transaction();
+                return Err(AkdError::Directory(DirectoryError::Publish(format!(
+                    "The directory moved from epoch {current_epoch} to epoch {} while this publish was being prepared",
+                    latest_azks.get_latest_epoch()
+                ))));
+            }
+            Err(err) => {
+                let _ = self.storage.rollback_transaction();
+                return Err(err);
+            }
+        }
         info!("Starting inserting new leaves");
 
         if let Err(err) = current_azks
